@@ -51,6 +51,10 @@ def ascending (desc : Bool) : List Nat → Bool
   | a :: b :: rest => (if desc then b < a else a < b) && ascending desc (b :: rest)
   | _ => true
 
+/-- a present value body that does not unmarshal (values are uint64 in the harness's bad-root family) -/
+def badVals (raw : Codec.RawNode) : Bool :=
+  raw.vals.any (fun b => match b with | some body => (Codec.parseNat body).isNone | none => false)
+
 /-- decode (with the format's decoder `dec`) + validate the top node under the loader's
     configuration -/
 def checkTop (dec : Bytes → Option Codec.RawNode) (kk : KeyKind) (layer : Nat → Nat) (height : Nat)
@@ -64,7 +68,7 @@ def checkTop (dec : Bytes → Option Codec.RawNode) (kk : KeyKind) (layer : Nat 
       | some keys =>
           let nl := if raw.links.length = 0 then keys.length + 1 else raw.links.length
           -- a present value body must unmarshal (values are uint64 in the harness's bad-root family)
-          if raw.vals.any (fun b => match b with | some body => (Codec.parseNat body).isNone | none => false) then .err "value"
+          if badVals raw then .err "value"
           else if keys.length ≠ raw.vals.length ∨ nl ≠ keys.length + 1 then .err "counts"
           else if ¬ ascending desc keys then .err "order"
           else if keys.any (fun k => layer k < height) then .err "layer"
@@ -88,6 +92,60 @@ def loadMast (fmt : String) (kk : KeyKind) (layer : Nat → Nat) (height : Nat) 
             match f with
             | .bin => checkTopBin kk layer height desc bytes
             | .json => checkTopJson kk layer height desc bytes
+
+/-! ## the node cache in front of the store (store.go:36-42, 84-86)
+
+`loadPersisted` asks the `NodeCache` first, under the key `<store prefix>/<name>`; a hit returns
+the cached node OBJECT and nothing is read or decoded.  The object was made by whichever reader
+(or writer) of that store put it there: its keys have the Go type of THAT configuration, and the
+default key order and layer function dispatch on the dynamic type of the key they are given. -/
+
+/-- a top-node object in the cache: made under key kind `kk` -/
+structure CachedTop where
+  kk : KeyKind
+  keys : List Nat
+  nvals : Nat
+  nlinks : Nat
+  deriving Repr, DecidableEq
+
+/-- `checkRoot` on a cached object (no decoding happens; counts, order, layers) -/
+def checkCached (layerOf : KeyKind → Nat → Nat) (height : Nat) (desc : Bool) (c : CachedTop) : Outcome :=
+  if c.keys.length ≠ c.nvals ∨ c.nlinks ≠ c.keys.length + 1 then .err "counts"
+  else if ¬ ascending desc c.keys then .err "order"
+  else if c.keys.any (fun k => layerOf c.kk k < height) then .err "layer"
+  else .ok
+
+/-- the entry a reader configured with decoder `dec`, key kind `kk` and order `desc` leaves in the
+    cache after it has loaded `bytes` (`none`: its load fails, nothing is cached) -/
+def cacheEntry (dec : Bytes → Option Codec.RawNode) (kk : KeyKind) (desc : Bool) (bytes : Bytes) : Option CachedTop :=
+  match dec bytes with
+  | none => none
+  | some raw =>
+      match raw.keys.mapM (fun b => b.bind (parseKey kk)) with
+      | none => none
+      | some keys =>
+          let nl := if raw.links.length = 0 then keys.length + 1 else raw.links.length
+          if badVals raw then none
+          else if keys.length ≠ raw.vals.length ∨ nl ≠ keys.length + 1 then none
+          else if ¬ ascending desc keys then none
+          else some { kk := kk, keys := keys, nvals := raw.vals.length, nlinks := nl }
+
+/-- `LoadMast` with a node cache: `cached` is what the cache holds under the root's link -/
+def loadMastC (fmt : String) (kk : KeyKind) (layerOf : KeyKind → Nat → Nat) (height : Nat) (desc : Bool)
+    (link : Bool) (cached : Option CachedTop) (top : Option Bytes) : Outcome :=
+  match knownFormat fmt with
+  | none => .err "format"
+  | some f =>
+      if ¬ link then .ok
+      else match cached with
+        | some c => checkCached layerOf height desc c
+        | none =>
+          match top with
+          | none => .err "missing"
+          | some bytes =>
+              match f with
+              | .bin => checkTopBin kk (layerOf kk) height desc bytes
+              | .json => checkTopJson kk (layerOf kk) height desc bytes
 
 end Loader
 end Mast
